@@ -6842,3 +6842,77 @@ def c02_send_step_keeps_routing(env):
 
 
 REGISTRY.setdefault("C02", []).append(c02_send_step_keeps_routing)
+
+
+# ---- C14: an attach that is being refused still learns that the session / connection stopped --------------------
+
+
+def c14_refused_attach_learns_the_stop(env):
+    o = Obligation("c14_a_refused_attach_still_reports_why_the_session_stopped", "C14")
+    o.desc = "sender_link::recv_detach / receiver_link::recv_detach (an attach the link refuses locally -- e.g. the peer's attach carries no target -- sends a closing detach and waits here for the peer's): when the link's channel is closed instead (the session engine dropped the relay: the session ended or the connection stopped / the transport was cut), the attach fails with SessionStopped(the recorded stop reason, which carries the peer's error) whenever a reason is recorded -- not with the local refusal it was about to report"
+    fns = []
+    n = 0
+
+    def replay(m):
+        return "scn refused_attach_then_close", (lambda js: js.get("panic") or not js["reports_the_stop"])
+
+    for role, errty in (("sender", "SenderAttachError"), ("receiver", "ReceiverAttachError")):
+        fn = env.fn(r"^%s_link::recv_detach::\{closure#0\}$" % role)
+        fns.append(fn.name)
+        AE = env.enums.get(errty)
+        if not AE or "SessionStopped" not in AE:
+            raise mir.Unsupported(f"{errty} layout not found")
+        states = _coroutine_states(fn)
+        got_d = z3.BitVec(f"{role}.session_stop_reason.is_recorded", 64)
+
+        def m_get(ex_, st, callee, args, argvals, dty, got_d=got_d):
+            r = mir.Agg("Option<&SessionStopReason>")
+            r["#d"] = got_d
+            sub = mir.Agg("Some")
+            sub[0] = mir.Ref(("@ssr",), False)
+            r[("as", "Some")] = sub
+            return r
+
+        def m_recv_poll(ex_, st, callee, args, argvals, dty):
+            pl = mir.Agg("Poll")
+            pl["#d"] = z3.BitVec(f"recv.poll#{ex_.ctx.n}", 64)
+            ex_.assumptions.append(z3.ULE(pl["#d"], 1))
+            rv = mir.Agg("Ready")
+            opt = mir.Agg("Option<LinkFrame>")
+            opt["#d"] = z3.BitVec(f"recv.frame.is_some#{ex_.ctx.n}", 64)
+            ex_.assumptions.append(z3.ULE(opt["#d"], 1))
+            ex_.ctx.n += 1
+            rv[0] = opt
+            pl[("as", "Ready")] = rv
+            return pl
+
+        pat_recv = r"mpsc::(bounded::)?Receiver<(link::frame::)?LinkFrame>::recv\(\)\} as (futures_util::|std::future::)?Future>::poll$"
+        for k in states:
+            ex, paths = _run_from_state(env, fn, k, models=[(r"^OnceLock::<(link::error::)?SessionStopReason>::get$", m_get), (pat_recv, m_recv_poll)], max_visits=2, stop=None)
+            for i, p in enumerate(paths):
+                if p.end != "return" or not isinstance(p.ret, mir.Agg) or "#d" not in p.ret:
+                    continue
+                polls = [c for c in p.calls if re.search(pat_recv, c[0])]
+                if not polls:
+                    continue
+                res = polls[-1][3]
+                closed = z3.And(res["#d"] == 0, res[("as", "Ready")][0]["#d"] == 0)
+                rdy = p.ret["#d"] == 0
+                H = ex.assumptions + [z3.ULE(got_d, 1)] + p.cond + [rdy, closed, got_d == 1]
+                s = z3.Solver()
+                s.add(*H)
+                if s.check() != z3.sat:
+                    continue
+                n += 1
+                inner = p.ret.get(("as", "Ready"))
+                e = inner.get(0) if isinstance(inner, mir.Agg) else None
+                ed = e.get("#d") if isinstance(e, mir.Agg) else None
+                o.prove(f"{role}:state{k}:path{i}:closed-channel-with-a-recorded-reason-is-session-stopped", H, (ed == AE["SessionStopped"]) if ed is not None else z3.BoolVal(False), replay=replay)
+    o.functions = fns
+    o.bounds = ["both coroutines from every resume state through one poll; the channel yielding a frame, closing, or pending; a stop reason recorded or not"]
+    o.assumes = ["the session / connection engines record the stop reason before the relay is dropped (c14_*_publishes_the_stop_reason)"]
+    o.cover("paths on which the channel is closed and a reason is recorded", [z3.BoolVal(n > 0)])
+    return [o]
+
+
+REGISTRY.setdefault("C14", []).append(c14_refused_attach_learns_the_stop)
